@@ -819,16 +819,6 @@ func blockReturnsError(b *ssa.BasicBlock) bool {
 func errorReachesCaller(fn *ssa.Function) bool {
 	site := soleCaller(fn)
 	if site == nil {
-		// a helper with several call sites: every one of them must hand the error on
-		if c := curCtx; c != nil && fn != nil && fn.Parent() == nil && c.transparent(fn) {
-			if sites := c.P.CallIndex().Sites[fn]; len(sites) > 1 {
-				for _, s := range sites {
-					if !errorPropagated(s) {
-						return false
-					}
-				}
-			}
-		}
 		return true
 	}
 	return errorPropagated(site)
